@@ -22,7 +22,8 @@ RULE = (
     "1,2,4,8 x walk(8w); flow label / message to user over the same octet strings; fault-handler override 13 condition codes "
     "x 4 handler codes; filestore request 9 action codes x name pairs; filestore response 9 action codes x every status code "
     "the library's enum defines for the action x name pairs x filestore messages; a parameter tuple whose value exceeds 255 "
-    "octets must be refused. type safety: every concrete class C x every foreign defined type T x sample values of T through "
+    "octets must be refused; every concrete parameter tuple is decoded through C.unpack, C.from_tlv and both TlvHolder routes, and "
+    "through C.unpack once more from a buffer that continues after the TLV (same parameters, consumed length = the TLV's own). type safety: every concrete class C x every foreign defined type T x sample values of T through "
     "C.unpack, C.from_tlv, TlvHolder(generic).to_C and TlvHolder(concrete object of type T).to_C. A case is distinct by its "
     "coordinates (kind, class, type octet, value / recipe, path); shards partition the coordinates and lists are de-duplicated."
 )
@@ -372,6 +373,25 @@ def check_concrete(rec: Rec, uname: str, recipe: dict, nontrivial=True):
                 keep.hold(dname, d, obs_conc, case)
         except Exception as e:
             bad(f"decode/{dname}/exception-on-result", _exc(e), exp)
+    # "decoding ... consumes exactly length+2 octets": the concrete decoder fed a buffer that goes on after the TLV (the next TLV of
+    # a PDU, a CRC) returns what it returns for the TLV alone and reports the TLV's own length
+    for dname, fn in u.decoders():
+        if not dname.endswith(".unpack"):
+            continue
+        try:
+            rb = receive_buffer(ref + SUFFIX)
+            d = fn(rb, recipe)
+            reuse_buffer(rb)
+            obs = u.observe(d)
+            if obs != exp:
+                bad(f"decode/{dname}/fields/with-suffix", obs, exp)
+            elif int(d.packet_len) != len(ref):
+                bad(f"decode/{dname}/consumed-length/with-suffix", int(d.packet_len), len(ref))
+            elif bytes(d.pack()) != ref:
+                bad(f"inverse/{dname}-then-pack/with-suffix", bytes(d.pack()), ref)
+            keep.hold(dname + "(with-suffix)", d, obs_conc, case)
+        except Exception as e:
+            bad(f"decode/{dname}/exception/with-suffix", _exc(e), exp)
     rec.outcome(f"{uname}/len={len(ref)}/ok")
     return ref
 
